@@ -451,7 +451,17 @@ class C02:
     @staticmethod
     def make_plan(run_seed, tier):
         p = _plan(run_seed, tier, E.ALL_CONSTRUCTIVE, ["reindex", "snapshot", "alternate", "env_restart", "reuse_store"], 0.6)
-        p["lib_rollout"] = Streams(run_seed).get("config2").random() < 0.5
+        r2 = Streams(run_seed).get("config2")
+        p["lib_rollout"] = r2.random() < 0.5
+        if p["cfg"]["env"] == "flp" and len(p["instances"]) > 1 and r2.random() < 0.5:
+            # FLP carries its quota per instance (`to_choose` [B]): rows of one batch may finish at different
+            # steps and are then padded with further selections.  (Only C02's invariants are claimed for such
+            # batches; objective / independence of padding are out of scope, DESIGN 10.2.)
+            n = p["cfg"]["gen"]["num_loc"]
+            for inst in p["instances"]:
+                q = r2.randint(1, n)
+                inst["to_choose"]["v"] = q if not isinstance(inst["to_choose"]["v"], list) else [q]
+            p["source"] = "hand:flp_mixed_quota"
         return p
 
     @staticmethod
